@@ -81,6 +81,7 @@ func main() {
 	// rounds of `conc` consecutive ops started together behind a barrier, so that neighbouring ops of the
 	// generated history (in particular the kind-grouped section) really run simultaneously
 	for base := 0; base < len(ops); base += *conc {
+		resetSharedArgs()
 		var wg sync.WaitGroup
 		start := make(chan struct{})
 		for gi := 0; gi < *conc && base+gi < len(ops); gi++ {
